@@ -20,16 +20,25 @@ pub enum DagOp {
   RemExisting { k: u16 },
   RemOut { s: u16 },
   RemNode { s: u16 },
+  /// One query, compared with the reference on the spot (no sweep): kind 0 contains_transitive_edge, 1 contains_edge,
+  /// 2 get_edge_data, 3 topo_cmp, 4 descendants(a), 5 descendants_unsorted(a), 6 outgoing(a), 7 incoming(a).
+  Q { kind: u8, a: u16, b: u16 },
+  /// Repeat the k-th most recent query (same kind, same nodes).
+  QAgain { k: u8 },
 }
 
 #[derive(Clone, Debug, Serialize, Deserialize, PartialEq, Eq, Hash)]
 pub struct DagCase {
   pub init: u8,
   pub ops: Vec<DagOp>,
+  /// 0 = all queries for all pairs after every operation; k > 0 = that sweep only after every k-th operation and at the
+  /// end, so that the generated single queries meet state left behind by earlier queries and mutators.
+  #[serde(default)]
+  pub sweep_every: u8,
 }
 
 pub fn pretty(c: &DagCase) -> String {
-  let mut s = format!("init {} nodes;", c.init);
+  let mut s = format!("init {} nodes, sweep every {};", c.init, c.sweep_every);
   for op in &c.ops {
     s.push(' ');
     s.push_str(&match op {
@@ -40,6 +49,8 @@ pub fn pretty(c: &DagCase) -> String {
       DagOp::RemExisting { k } => format!("E-k({:#x})", k),
       DagOp::RemOut { s } => format!("Out-({:#x})", s),
       DagOp::RemNode { s } => format!("N-({:#x})", s),
+      DagOp::Q { kind, a, b } => format!("Q{}({:#x},{:#x})", kind, a, b),
+      DagOp::QAgain { k } => format!("Q^{}", k),
     });
   }
   s
@@ -54,11 +65,13 @@ pub fn op_strategy() -> impl Strategy<Value=DagOp> {
     2 => any::<u16>().prop_map(|k| DagOp::RemExisting { k }),
     1 => any::<u16>().prop_map(|s| DagOp::RemOut { s }),
     1 => any::<u16>().prop_map(|s| DagOp::RemNode { s }),
+    4 => (prop_oneof![3 => Just(0u8), 1 => 1u8..8], any::<u16>(), any::<u16>()).prop_map(|(kind, a, b)| DagOp::Q { kind, a, b }),
+    3 => (0u8..4).prop_map(|k| DagOp::QAgain { k }),
   ]
 }
 
 pub fn case_strategy(max_init: u8, max_ops: usize) -> impl Strategy<Value=DagCase> {
-  (2u8..=max_init, proptest::collection::vec(op_strategy(), 0..=max_ops)).prop_map(|(init, ops)| DagCase { init, ops })
+  (2u8..=max_init, proptest::collection::vec(op_strategy(), 0..=max_ops), prop_oneof![2 => Just(0u8), 1 => Just(255u8), 1 => 2u8..9]).prop_map(|(init, ops, sweep_every)| DagCase { init, ops, sweep_every })
 }
 
 // ---------------------------------------------------------------------------------------------------------------------
@@ -172,6 +185,8 @@ pub struct DagFacts {
   pub removals: u64,
   pub max_live: usize,
   pub edges_added: u64,
+  pub single_queries: u64,
+  pub query_after_removal: bool,
 }
 
 /// Applies `case` to the real graph and the model. With `check_every` all assertions run after every operation; otherwise
@@ -185,10 +200,11 @@ pub fn run_case(case: &DagCase, check_every: bool, facts: &mut DagFacts) -> Vec<
     m.nodes.push(MNode { live: true, ..Default::default() });
   }
   let mut removal_seen = false;
+  let mut recent: Vec<(u8, usize, usize)> = vec![];
   let n_ops = case.ops.len();
   if n_ops == 0 { check_all(&sut, &m, 0, "init", &mut fails); }
   for (step, op) in case.ops.iter().enumerate() {
-    let do_check = check_every || step + 1 == n_ops;
+    let do_check = (check_every && (case.sweep_every == 0 || (step + 1) % case.sweep_every as usize == 0)) || step + 1 == n_ops;
     let total = m.nodes.len();
     let desc;
     match op {
@@ -302,6 +318,20 @@ pub fn run_case(case: &DagCase, check_every: bool, facts: &mut DagFacts) -> Vec<
           fails.push((Tag::C11, format!("step {} {}: returned {:?}, reference says {:?}", step, desc, got, expected)));
         }
       }
+      DagOp::Q { .. } | DagOp::QAgain { .. } => {
+        if total == 0 { continue; }
+        let (kind, a, b) = match op {
+          DagOp::Q { kind, a, b } => (*kind % 8, pick(*a, total), pick(*b, total)),
+          DagOp::QAgain { k } => { if recent.is_empty() { continue; } recent[recent.len() - 1 - (*k as usize % recent.len())] }
+          _ => unreachable!(),
+        };
+        recent.push((kind, a, b));
+        if recent.len() > 8 { recent.remove(0); }
+        facts.single_queries += 1;
+        if removal_seen { facts.query_after_removal = true; }
+        desc = format!("query kind {} ({}, {})", kind, a, b);
+        single_query(&sut, &m, kind, a, b, step, &mut fails);
+      }
       DagOp::RemNode { s } => {
         if total == 0 { continue; }
         let s = pick(*s, total);
@@ -338,6 +368,50 @@ pub fn run_case(case: &DagCase, check_every: bool, facts: &mut DagFacts) -> Vec<
     if !fails.is_empty() { break; }
   }
   fails
+}
+
+/// One query against the reference (C11), without touching anything else.
+fn single_query(sut: &Sut, m: &Model, kind: u8, i: usize, j: usize, step: usize, fails: &mut Vec<(Tag, String)>) {
+  let (a, b) = (&sut.ids[i], &sut.ids[j]);
+  let at = |msg: String| format!("step {} single query: {}", step, msg);
+  match kind {
+    0 => {
+      let t = i != j && m.live(i) && m.live(j) && m.reach_set(i).contains(&j);
+      if sut.dag.contains_transitive_edge(a, b) != t { fails.push((Tag::C11, at(format!("contains_transitive_edge({},{}) = {}, reference {}", i, j, !t, t)))); }
+    }
+    1 => {
+      let e = m.has_edge(i, j);
+      if sut.dag.contains_edge(a, b) != e { fails.push((Tag::C11, at(format!("contains_edge({},{}) = {}, reference {}", i, j, !e, e)))); }
+    }
+    2 => {
+      let ed = sut.dag.get_edge_data(a, b).cloned();
+      if ed != m.edge_data(i, j) { fails.push((Tag::C11, at(format!("get_edge_data({},{}) = {:?}, reference {:?}", i, j, ed, m.edge_data(i, j))))); }
+    }
+    3 => {
+      if m.live(i) && m.live(j) {
+        let obs = sut.observe();
+        if let (Some(ri), Some(rj)) = (obs.rank[i], obs.rank[j]) {
+          let cmp: Ordering = sut.dag.topo_cmp(a, b);
+          if cmp != ri.cmp(&rj) { fails.push((Tag::C11, at(format!("topo_cmp({},{}) = {:?} but ranks {} {}", i, j, cmp, ri, rj)))); }
+        }
+      }
+    }
+    4 | 5 => {
+      let want = if m.live(i) { Some(m.reach_set(i)) } else { None };
+      let got: Option<Vec<usize>> = if kind == 4 { sut.dag.descendants(a).ok().map(|it| it.map(|nd| sut.ix(&nd)).collect()) } else { sut.dag.descendants_unsorted(a).ok().map(|it| it.map(|(_, nd)| sut.ix(&nd)).collect()) };
+      let got_set: Option<BTreeSet<usize>> = got.as_ref().map(|v| v.iter().cloned().collect());
+      if got_set != want || got.as_ref().map(|v| v.len()) != want.as_ref().map(|s| s.len()) { fails.push((Tag::C11, at(format!("descendants{}({}) = {:?}, reference set {:?}", if kind == 5 { "_unsorted" } else { "" }, i, got, want)))); }
+    }
+    6 => {
+      let got: Vec<(usize, u8)> = sut.dag.get_outgoing_edges(a).map(|(d, e)| (sut.ix(d), *e)).collect();
+      if got != m.nodes[i].out { fails.push((Tag::C11, at(format!("get_outgoing_edges({}) = {:?}, reference {:?}", i, got, m.nodes[i].out)))); }
+    }
+    _ => {
+      let got: Vec<(usize, u8)> = sut.dag.get_incoming_edges(a).map(|(s, e)| (sut.ix(s), *e)).collect();
+      let want: Vec<(usize, u8)> = m.nodes[i].inc.iter().map(|s| (*s, m.edge_data(*s, i).unwrap())).collect();
+      if got != want { fails.push((Tag::C11, at(format!("get_incoming_edges({}) = {:?}, reference {:?}", i, got, want)))); }
+    }
+  }
 }
 
 fn check_all(sut: &Sut, m: &Model, step: usize, desc: &str, fails: &mut Vec<(Tag, String)>) {
@@ -482,6 +556,8 @@ pub fn record(case: &DagCase, facts: &DagFacts, stats: &mut Stats, which: Tag) {
   if facts.reorders > 0 { stats.class("case_with_reorder"); }
   if facts.readd_existing > 0 { stats.class("case_with_readd"); }
   if facts.cycles_rejected > 0 { stats.class("case_with_rejected_cycle"); }
+  stats.class_n("single_queries", facts.single_queries);
+  if case.sweep_every != 0 { stats.class("case_with_sparse_sweeps"); if facts.query_after_removal { stats.class("sparse_case_with_single_query_after_a_removal"); } }
   let nontrivial = match which {
     Tag::C10 => facts.big_reorder || facts.long_cycle_after_removal,
     Tag::C11 => facts.readd_order_sensitive || facts.removal_partial,
@@ -491,7 +567,12 @@ pub fn record(case: &DagCase, facts: &DagFacts, stats: &mut Stats, which: Tag) {
 
 /// Exhaustive enumeration of all operation sequences of exactly `len` ops over `init` pre-created nodes (AddNode allowed
 /// once more), checking after the last op only (every prefix is enumerated as a shorter sequence by the caller).
-pub fn enumerate(init: u8, len: usize, which: Tag, threads: usize) -> (u64, Option<(DagCase, String)>) {
+pub fn enumerate(init: u8, len: usize, which: Tag, threads: usize) -> (u64, Option<(DagCase, String)>) { enumerate_with(init, len, which, threads, false) }
+
+/// `with_queries`: the alphabet additionally contains a single contains_transitive_edge query for every ordered pair, and
+/// nothing else is queried before the last operation - so every interleaving of mutators and reachability queries of that
+/// length is covered (state carried from one query to the next).
+pub fn enumerate_with(init: u8, len: usize, which: Tag, threads: usize, with_queries: bool) -> (u64, Option<(DagCase, String)>) {
   // Alphabet over node indices 0..init (+1 for a node possibly added by AddNode).
   let n = init as usize + 1;
   let mut alphabet: Vec<DagOp> = vec![DagOp::AddNode];
@@ -500,6 +581,7 @@ pub fn enumerate(init: u8, len: usize, which: Tag, threads: usize) -> (u64, Opti
   for s in 0..n { for d in 0..n { if s != d { alphabet.push(DagOp::RemEdge { s: sel(s), d: sel(d) }); } } }
   for s in 0..n { alphabet.push(DagOp::RemOut { s: sel(s) }); }
   for s in 0..n { alphabet.push(DagOp::RemNode { s: sel(s) }); }
+  if with_queries { for s in 0..n { for d in 0..n { if s != d { alphabet.push(DagOp::Q { kind: 0, a: sel(s), b: sel(d) }); } } } }
   // NOTE: selectors are resolved against the number of nodes created so far; with fewer nodes some selectors alias,
   // which only duplicates sequences.
   let a = alphabet.len();
@@ -515,7 +597,7 @@ pub fn enumerate(init: u8, len: usize, which: Tag, threads: usize) -> (u64, Opti
           let mut ops = Vec::with_capacity(len);
           let mut x = idx;
           for _ in 0..len { ops.push(alphabet[(x % a as u64) as usize].clone()); x /= a as u64; }
-          let case = DagCase { init, ops };
+          let case = DagCase { init, ops, sweep_every: 0 };
           let fails = match std::panic::catch_unwind(std::panic::AssertUnwindSafe(|| run_case(&case, false, &mut facts))) {
             Ok(f) => f,
             Err(p) => vec![(which, format!("the graph panicked: {}", crate::driver::panic_message(p.as_ref())))],
